@@ -58,6 +58,10 @@ Theorem C45_int_conversion_exact :
 Proof. exact int_conversion_exact. Qed.
 Print Assumptions C45_int_conversion_exact.
 
+Example C45_int_conversion_exact_nonvacuous :
+  (Z.abs (- 2^53) <= 2^53)%Z /\ f64_to_Z (z_to_f64 (- 2^53)) = Some (- 2^53)%Z /\ z_to_f64 (- 2^53) = 0xc340000000000000.
+Proof. vm_compute. repeat split; congruence. Qed.
+
 (* and not beyond: 2^53 + 1 is the first integer that is changed *)
 Example C45_int_conversion_inexact_above :
   f64_to_Z (z_to_f64 (2^53 + 1)) = Some (2^53)%Z.
